@@ -66,6 +66,7 @@ def run_verus_unit(unit, tier):
     r['diff'] = ex['diff']
     r['functions'] = ex['functions']
     r['gen_file'] = os.path.relpath(out, VERIF)
+    r['fail_needs_replay'] = bool(ex['spec'].get('fail_needs_replay'))
     # the lemma files must be free of assume/admit
     def _lst(x):
         return x if isinstance(x, list) else [x]
@@ -229,6 +230,12 @@ def main(argv=None):
         if k:
             known_hits.append((k, f))
             f['known'] = True
+        elif r.get('fail_needs_replay') and not found.get('found'):
+            # This unit's proof rests on ASSUMED std contracts (only the std functions the shipped code calls have one).
+            # A failed obligation without a concrete failing input may just mean "the edit calls another std function":
+            # undecided, not an alarm.  With a concrete input from the exhaustive oracle it is a violation.
+            undecided.append((r, [{'reason': 'obligation failed but the exhaustive concrete oracle finds no failing input; the unit rests on assumed std contracts, so this is undecided rather than an alarm', 'obligation': f['label'], 'oracle': found.get('tried')}]))
+            f['downgraded'] = True
         else:
             violations.append((path, f, found))
 
